@@ -11,6 +11,7 @@ mod c08;
 mod c10;
 mod c11;
 mod c12;
+mod c13;
 mod c14;
 mod c15;
 
@@ -33,6 +34,7 @@ fn dispatch(ctx: &Ctx, replay: Option<&serde_json::Value>) {
         "C10" => c10::run(ctx, replay),
         "C11" => c11::run(ctx, replay),
         "C12" => c12::run(ctx, replay),
+        "C13" => c13::run(ctx, replay),
         "C14" => c14::run(ctx, replay),
         "C15" => c15::run(ctx, replay),
         p => {
